@@ -92,9 +92,26 @@ def shard_header(path):
         return json.loads(f.readline())["layouts"]
 
 
+class Shard:
+    """Random access to the lines of a shard file without loading it (shards of a state-exploding mutant are large)."""
+
+    def __init__(self, path):
+        self.f = open(path, "rb")
+        self.offs = [0]
+        for line in self.f:
+            self.offs.append(self.offs[-1] + len(line))
+        self.cache = {}
+
+    def __getitem__(self, i):
+        if i not in self.cache:
+            self.f.seek(self.offs[i])
+            self.cache[i] = json.loads(self.f.readline())
+        return self.cache[i]
+
+
 def walk_table(path, li, history):
     """Pure table lookup (no judgement): what the recorded implementation emitted along a history."""
-    rows = read_ndjson(path)
+    rows = Shard(path)
     hdr = rows[0]["layouts"][li - 1]
     keys = hdr["keys"]
     sid = hdr["first"]
@@ -114,7 +131,7 @@ def walk_table(path, li, history):
 
 
 def sample_walk(path, li, steps=8, salt=0):
-    rows = read_ndjson(path)
+    rows = Shard(path)
     hdr = rows[0]["layouts"][li - 1]
     if not hdr["first"]:
         return None
@@ -143,10 +160,15 @@ def order_jobs(jobs):
     return sorted(jobs, key=lambda j: (0 if "fancy" in j else 1, ))
 
 
-def tabulate(exe, wd, jobs, shards, maxstates=50000):
+def tabulate(exe, wd, jobs, shards, maxstates=60000, budget=None):
+    """maxstates: cap per layout (the unchanged tree needs < 7 000 at 3 keys held over 7 keys, < 35 000 for the built-ins at 4); budget: cap on the
+    whole run, after which every further layout is cut at 2 000 states. Both only matter for a change that makes the state space explode
+    (a key that is never released again, a duplicate press acted on): what was recorded is still explored, the evidence reports the truncation."""
     jobs = order_jobs(jobs)
+    if budget is None:
+        budget = 1000000 + 1500 * len(jobs)
     with open(os.path.join(wd, "jobs.json"), "w") as f:
-        json.dump({"maxstates": maxstates, "jobs": jobs}, f)
+        json.dump({"maxstates": maxstates, "budget": budget, "jobs": jobs}, f)
     t0 = time.time()
     out = run_tmv(exe, ["tabulate", os.path.join(wd, "jobs.json"), os.path.join(wd, "tab"), str(shards)])
     stats = json.loads(out.strip().splitlines()[-1])
@@ -189,6 +211,9 @@ def run_model(res, wd, shards, props, known, tags, prop, replay_path="", module=
             res.tool_errors.append("%s: %s" % (r.name, err))
             continue
         if r.invariant_violated():
+            if len(res.violations) >= 8:
+                res.more_violations += 1
+                continue
             states = r.cex_states()
             if not states:
                 res.tool_errors.append("%s: invariant violated but no counterexample dump" % r.name)
